@@ -11,3 +11,15 @@ open RV.C07
 #print axioms order_consistent_partial
 #print axioms order_consistent_witness
 #print axioms strOracle_sound
+#print axioms decode_shortEncode
+#print axioms decode_longEncode
+#print axioms n3_roundtrip_partial
+#print axioms n3_roundtrip_any_lexical
+#print axioms n3_roundtrip_witness
+#print axioms n3_guard
+#print axioms reduce_rebuild_of_wsIdem
+#print axioms old_reduce_renormalises
+#print axioms table_ordering
+#print axioms table_short_escapes
+#print axioms table_long_escapes
+#print axioms table_invalid_chars
